@@ -15,6 +15,7 @@
 package autofile
 
 import (
+	"github.com/dappledger/AnnChain/gemmill/verifhook"
 	"os"
 	"sync"
 	"time"
@@ -109,6 +110,7 @@ func (af *AutoFile) Write(b []byte) (n int, err error) {
 		}
 	}
 
+	verifhook.Durable("autofile.Write", []byte(af.Path))
 	n, err = af.file.Write(b)
 	return
 }
